@@ -140,16 +140,19 @@ struct C16Redeliver : Monitor {
 		if (!classify(d.data, cur)) { step_is_redeliv = false; return; }
 		step_uid = cur.uid; step_name = cur.name;
 		auto it = origs.find(d.serial);
+		// every ping/data datagram the server picks up may end up in its duplicate memory (a copy that is processed as a new query
+		// - re-cased while the original is pending - is remembered as well), so all of them age the entries of earlier queries
+		for (auto &p : origs) if (p.second.processed && p.first != d.serial) { if (cur.kind == 'd') p.second.n_data_after++; else p.second.n_ping_after++; }
 		if (!d.redelivery) {
 			// the original (as transformed by the path) reaches the server
 			if (it != origs.end()) {
 				Orig &o = it->second;
 				o.processed = true; o.name_as_received = cur.name; o.id_as_received = cur.id;
-				for (auto &p : origs) if (p.second.processed && p.first != d.serial) { if (cur.kind == 'd') p.second.n_data_after++; else p.second.n_ping_after++; }
 			}
 			return;
 		}
 		if (it == origs.end() || !it->second.processed) { step_is_redeliv = false; return; }
+		if (d.retyped) { step_is_redeliv = false; w->probes["c16.retyped_copies_not_judged"]++; return; }   // another question, not a repeat of a query the server has seen
 		Orig &o = it->second;
 		w->probes["c16.redelivered"]++;
 		before = pos_of(cur.uid); have_before = true;
